@@ -134,14 +134,16 @@ def run(ctx):
                         constants={"Seed": ctx.seed % 1000, "Big": "FALSE" if ctx.quick else "TRUE"})
     cases, ncases = ctx.gen("gen", SPEC, "Gen_C13.tla", gcfg, workers=4)
     allc = [json.loads(l) for l in open(cases)]
+    # the short-product shapes are never sampled away (their branch only compares the product with the modulus)
+    keep = [c for c in allc if c.get("shape", 0) >= 11]
     if ctx.quick:
-        allc = [c for i, c in enumerate(allc) if (i + ctx.seed) % 2 == 0]
+        allc = [c for i, c in enumerate(allc) if (i + ctx.seed) % 2 == 0 or c.get("shape", 0) >= 11]
     pg = write_cases(ctx.path("cases-gen.ndjson"), witness_cases(ctx) + allc)
     t_gen = ctx.drive(std, ["--cases", pg, "--n", "0"], "trace-gen.ndjson")
     t_rnd = ctx.drive(std, ["--seed", str(ctx.seed), "--n", str(ctx.pick(1200, 9000)), "--max-words", str(ctx.pick(12, 24))],
                       "trace-rnd.ndjson")
     # without debug assertions a broken representation invariant is not stopped by an assert: it must show in the values
-    pr = write_cases(ctx.path("cases-rel.ndjson"), witness_cases(ctx) + allc[:: ctx.pick(6, 3)])
+    pr = write_cases(ctx.path("cases-rel.ndjson"), witness_cases(ctx) + keep + [c for c in allc[:: ctx.pick(6, 3)] if c.get("shape", 0) < 11])
     t_rel = ctx.drive(rel, ["--cases", pr, "--seed", str(ctx.seed + 1), "--n", str(ctx.pick(200, 1500)), "--max-words", "10"],
                       "trace-rel.ndjson")
     jobs = split_trace(ctx, t_gen, "gen", ctx.pick(4, 8)) + split_trace(ctx, t_rnd, "rnd", ctx.pick(2, 5)) + \
